@@ -343,12 +343,15 @@ func init() {
 		}
 		defer env.close()
 		rng := newRand(12)
+		phase(0.5)
 		for i := 0; i < tierN(150, 4000) && !expired(); i++ {
 			c12History(r, env, rng, i)
 		}
+		phase(0.9)
 		for i := 0; i < tierN(120, 3000) && !expired(); i++ {
 			c12Race(r, env, rng, i)
 		}
+		phase(1)
 		for i := 0; i < tierN(4, 40) && !expired(); i++ {
 			c12Stale(r, rng, i)
 		}
